@@ -271,6 +271,14 @@ fn check_renum(t: &mut Tape, ctx: &Ctx) -> Outcome {
                     }
                     return Outcome::fail("renumbered-text-differs", format!("lines that differ from the reference renumbering:\n{}", diff), case);
                 }
+                // every renumbered line is still a line that can be typed and loaded (longer
+                // numbers may not push it over the line buffer: then RENUM has to fail instead)
+                for l in &after {
+                    let mut probe = basic::mach::Listing::default();
+                    if let Err(e) = probe.load_str(l) {
+                        return Outcome::fail("renumbered-line-cannot-be-entered", format!("after {} the line ({} bytes)\n{}\nis refused by the loader: {}", cmd, l.len(), l, e), case);
+                    }
+                }
                 // strictly increasing, injective
                 let ns: Vec<u16> = q.line_numbers();
                 if ns.windows(2).any(|w| w[0] >= w[1]) {
